@@ -265,6 +265,12 @@ func genC19(out, tier string, rng *rand.Rand) {
 		dur = 12 * time.Second
 	}
 	notes, ops := lockStress(dur, rng.Int63())
+	patience := 6 * time.Second
+	if tier == "thorough" {
+		patience = 40 * time.Second
+	}
+	notes = append(notes, patientWaiters(patience)...)
+	extra["patient_waiter_s"] = patience.Seconds()
 	{
 		r := NewRunner([][]POp{lockUnlock(0)}, false)
 		r.Drain()
@@ -370,4 +376,58 @@ func lockStress(d time.Duration, seed int64) ([]string, int64) {
 		note("%d entries left in the map after every caller has finished", n)
 	}
 	return notes, atomic.LoadInt64(&calls)
+}
+
+// patientWaiters: a Lock and a Run queued behind a holder with a context that never ends wait as long
+// as it takes (here: [d]); they neither give up nor skip their section, and succeed once the holder
+// lets go.
+func patientWaiters(d time.Duration) []string {
+	var notes []string
+	m := gcsutil.NewTransientLockMap()
+	bg := context.Background()
+	if !m.Lock(bg, "pl") || !m.Lock(bg, "pr") {
+		return []string{"patient: an uncontended Lock failed"}
+	}
+	lockRes := make(chan bool, 1)
+	runRes := make(chan error, 1)
+	var ran atomic.Bool
+	go func() { lockRes <- m.Lock(bg, "pl") }()
+	go func() { runRes <- m.Run(bg, "pr", func(context.Context) error { ran.Store(true); return nil }) }()
+	timer := time.After(d)
+	early := false
+	for !early {
+		select {
+		case ok := <-lockRes:
+			notes = append(notes, fmt.Sprintf("patient: Lock queued behind a holder returned %v although the key is still held and its context has not ended", ok))
+			lockRes <- ok
+			early = true
+		case err := <-runRes:
+			notes = append(notes, fmt.Sprintf("patient: Run queued behind a holder returned %v (section ran: %v) although the key is still held and its context has not ended", err, ran.Load()))
+			runRes <- err
+			early = true
+		case <-timer:
+			early = true
+		}
+	}
+	m.Unlock("pl")
+	m.Unlock("pr")
+	select {
+	case ok := <-lockRes:
+		if ok {
+			m.Unlock("pl")
+		} else if len(notes) == 0 {
+			notes = append(notes, "patient: Lock returned false after the holder let go although its context has not ended")
+		}
+	case <-time.After(5 * time.Second):
+		notes = append(notes, "patient: the queued Lock did not return within 5 s of the holder letting go")
+	}
+	select {
+	case err := <-runRes:
+		if (err != nil || !ran.Load()) && len(notes) == 0 {
+			notes = append(notes, fmt.Sprintf("patient: Run returned %v, section ran: %v, after the holder let go", err, ran.Load()))
+		}
+	case <-time.After(5 * time.Second):
+		notes = append(notes, "patient: the queued Run did not return within 5 s of the holder letting go")
+	}
+	return notes
 }
